@@ -1,4 +1,5 @@
 HOOK_COMMITS = ['261214f']
+FIX_COMMITS = ['6ab1b61', 'aa5da3f', '23893cd']
 NOTES = ('Every check: proof gate (full coq build, forbidden-construct scan, Print Assumptions allow-list = empty) '
          '+ correspondence (extracted model vs real code on corpus + generated cases) + model-free oracle; '
          'known findings in known_findings.json. See DESIGN.md.')
@@ -12,3 +13,35 @@ CLAIMED = {
         note='trusted: Coq kernel, hand-written model (Packet/Checksum.v) + correspondence harness; no axioms. Not proved: the Rust code itself.',
         technique='Coq proof (algebraic law over Z, lia) + differential testing of extracted model vs implementation'),
 }
+
+STRAT_NOTE = ('trusted: Coq kernel; hand-written model of strategy.rs (Core/TracerState.v, Core/Strategy.v) tied to the code by replaying '
+              'recorded interaction traces of the real Strategy::run (scripted Network, virtual clock) through the extracted model; no axioms. '
+              'The OS socket layer and real time are outside the model (theorems are stated at the Network interface).')
+CLAIMED['C07'] = dict(
+    text='Coq theorems over every reachable state of the send/receive/update loop, every accepted configuration, unboundedly many rounds: '
+         'round window invariant (initial <= round_sequence <= sequence <= round_sequence+512, sequence < 65535, buffer 512), consecutive sequences, '
+         'between-round move-or-restart, separation of consecutive rounds for ICMP/UDP, no fault on capacity exhaustion, Dublin/IPv6 payload fits 976. '
+         'Correspondence: recorded traces of the real Strategy incl. wrap-boundary initial sequences.',
+    note=STRAT_NOTE + ' Separation is proved for ICMP/UDP; for TCP with hundreds of port collisions in two consecutive rounds it does not hold (recorded finding).',
+    technique='Coq proof (state invariant by induction over loop iterations) + trace replay of extracted model vs implementation')
+CLAIMED['C06'] = dict(
+    text='Coq theorems for all histories: every send happens with target not found, first_ttl <= ttl <= max_ttl, ttl <= known target distance or within max_inflight of the farthest answering hop; '
+         're-issues keep the TTL; the next TTL moves by exactly one per send and resets exactly on publish; a round-start state always sends the first_ttl probe. '
+         'Correspondence + send-log oracle on simulated traces.',
+    note=STRAT_NOTE, technique='Coq proof (one-step discipline lemmas over the invariant) + trace replay + send-log oracle')
+CLAIMED['C08'] = dict(
+    text='Coq theorems: a round is published in an iteration iff the timing policy holds on the clock reading (duration > max, or duration > min and target answered and grace exceeded since the last accepted response); '
+         'the reason is TargetFound iff the target answered; the next round starts at the advance reading; a reading more than max beyond the start always publishes. For arbitrary clock readings.',
+    note=STRAT_NOTE + ' "max plus one read timeout" is an environment assumption (consecutive update readings at most one send + one read timeout apart).',
+    technique='Coq proof (decision procedure = policy, by case analysis + lia) + trace replay under a virtual clock + policy oracle on ground truth')
+CLAIMED['C09'] = dict(
+    text='Coq theorems for all input histories: the loop never faults; published rounds carry ids 0,1,2.. in order, never more than n, exactly n when the run finishes; '
+         'a fatal receive error ends the run with that error; a transient send failure marks exactly that slot Failed; TCP address-in-use marks the slot Skipped and re-issues the next sequence with the same TTL.',
+    note=STRAT_NOTE + ' Error visibility in snapshots (Tracer::handle_error) is checked by the harness oracle, not proved.',
+    technique='Coq proof (induction over the input history) + trace replay with fault injection')
+CLAIMED['C03'] = dict(
+    text='Coq theorems: a delivery either leaves the entire tracer state unchanged or is accepted (validate, trace id, sequence issued in the round in progress, slot still Awaited) and then completes exactly that slot; '
+         'duplicates, never-sent sequences, previous-round sequences (ICMP/UDP, via C07 separation) and foreign non-zero trace ids are no-ops. '
+         'Oracle: replaying the recorded trace with all non-genuine deliveries replaced by timeouts through the real code must give the same sends and rounds.',
+    note=STRAT_NOTE + ' Multi-tracer isolation is proved as trace-id rejection; UDP/TCP tracers (trace id 0) rely on distinct ports, which is an OS-level guarantee outside the model.',
+    technique='Coq proof (case analysis of recv_response over the invariant) + trace replay + with/without differential oracle')
